@@ -82,6 +82,11 @@ SIG = {
                       [('hashlib_sha256', 'Bytes → Bytes'), ('OPS', 'List (String × Bytes)'), ('self_version', 'Bytes'),
                        ('self_inputs', 'List Py.PyTxIn'), ('self_outputs', 'List Py.PyTxOut'), ('self_locktime', 'Bytes'),
                        ('txin_index', 'Int'), ('script', 'List Py.PyTok'), ('amount', 'Int'), ('sighash', 'Int')], 'Bytes'),
+    # the original SignatureHash: works on a deep copy of self that it mutates
+    'legacy_digest': ('transactions.py', 'Transaction.get_transaction_digest',
+                      [('hashlib_sha256', 'Bytes → Bytes'), ('OPS', 'List (String × Bytes)'), ('self_version', 'Bytes'),
+                       ('self_inputs', 'List Py.PyTxIn'), ('self_outputs', 'List Py.PyTxOut'), ('self_witnesses', 'List Py.PyWit'),
+                       ('self_locktime', 'Bytes'), ('txin_index', 'Int'), ('script', 'List Py.PyTok'), ('sighash', 'Int')], 'Bytes'),
     # BIP341 / BIP342 signature message
     'taproot_digest': ('transactions.py', 'Transaction.get_transaction_taproot_digest',
                        [('hashlib_sha256', 'Bytes → Bytes'), ('OPS', 'List (String × Bytes)'), ('self_version', 'Bytes'),
@@ -126,6 +131,12 @@ TOK_FIELDS = {'script_pubkey', 'script_sig'}
 RECORDS = {'List Py.PyTxIn': ('txinput_to_bytes', True, ['txid', 'txout_index', 'script_sig', 'sequence']),
            'List Py.PyTxOut': ('txoutput_to_bytes', True, ['amount', 'script_pubkey']),
            'List Py.PyWit': ('txwitness_to_bytes', False, ['stack'])}
+# functions allowed to mutate `tmp = Transaction.copy(self)`: the copy's record lists become mutable *values* (lists of records).
+# Sound because the copy is deep — every record of the copy is a fresh object distinct from every other (C13's heap theorems and
+# history runs are about exactly that) — and because the function hands none of those objects out.
+MUTCOPY = {'legacy_digest'}
+# constructor argument order of the record classes (checked against the class's __init__ when used)
+REC_CTOR = {'TxOutput': ('Py.PyTxOut', ['amount', 'script_pubkey']), 'TxInput': ('Py.PyTxIn', ['txid', 'txout_index', 'script_sig', 'sequence'])}
 # module-level names visible to the functions of one file only (filled from the evaluated module)
 FILE_CONSTS = {}
 # `while` loops are translated with an explicit iteration bound (a Lean term over the variables in scope at loop
@@ -161,6 +172,120 @@ def find(tree, qual):
 def blit(b):
     if not b: return '([] : Bytes)'
     return '[' + ', '.join(f'0x{x:02x}' for x in b) + ']'
+
+
+# ---- `X.copy(obj)` as a value identity -----------------------------------------------------------------------------------------
+# The digest functions work on `Transaction.copy(self)`.  The translation reads (and, for MUTCOPY functions, updates) the copy as a
+# value with the same fields as self.  That the copy *has* the same field values is checked here, structurally, on every run: the
+# constructor stores each parameter in the field of the same name (default / type guards aside), and `copy` passes, for every field,
+# that field of its argument — itself, `list(...)`, `copy.deepcopy(...)`, `K.copy(...)` or `[K.copy(e) for e in ...]` of it, with
+# K.copy checked the same way.  (That the copy shares no object with the original is C13's subject.)
+COPY_FIELDS = {'Transaction': ['inputs', 'outputs', 'locktime', 'version', 'witnesses'],
+               'TxInput': ['txid', 'txout_index', 'script_sig', 'sequence'], 'TxOutput': ['amount', 'script_pubkey'],
+               'TxWitnessInput': ['stack'], 'Script': ['script']}
+COPY_FILES = {'Transaction': 'transactions.py', 'TxInput': 'transactions.py', 'TxOutput': 'transactions.py',
+              'TxWitnessInput': 'transactions.py', 'Script': 'script.py'}
+_TREES = {}
+_COPY_OK = {}
+
+
+def get_tree(file):
+    if file not in _TREES: _TREES[file] = ast.parse(open(f'{REPO}/bitcoinutils/{file}').read())
+    return _TREES[file]
+
+
+def _cls(name):
+    if name not in COPY_FILES: raise Unsupported(f'copy of unknown class {name}')
+    cands = [n for n in get_tree(COPY_FILES[name]).body if isinstance(n, ast.ClassDef) and n.name == name]
+    if not cands: raise Unsupported(f'class {name} not found')
+    return cands[-1]
+
+
+def _method(c, name):
+    cands = [n for n in c.body if isinstance(n, ast.FunctionDef) and n.name == name]
+    if not cands: raise Unsupported(f'{c.name}.{name} not found')
+    return cands[-1]
+
+
+def ctor_map(cname):
+    """parameter -> the field it is stored in unchanged (for arguments of the modelled types: non-None, bytes not str)"""
+    m = _method(_cls(cname), '__init__')
+    params = [a.arg for a in m.args.args[1:]]
+    if m.args.vararg or m.args.kwarg or m.args.kwonlyargs: raise Unsupported(f'{cname}.__init__: signature')
+    out = {}
+    def is_self_attr(t): return isinstance(t, ast.Attribute) and isinstance(t.value, ast.Name) and t.value.id == 'self'
+    for st in m.body:
+        if isinstance(st, ast.Expr) and isinstance(st.value, ast.Constant): continue
+        if (isinstance(st, ast.If) and isinstance(st.test, ast.Compare) and len(st.test.ops) == 1 and isinstance(st.test.ops[0], ast.Is)
+                and isinstance(st.test.left, ast.Name) and isinstance(st.test.comparators[0], ast.Constant) and st.test.comparators[0].value is None
+                and not st.orelse and len(st.body) == 1 and isinstance(st.body[0], ast.Assign) and len(st.body[0].targets) == 1
+                and isinstance(st.body[0].targets[0], ast.Name) and st.body[0].targets[0].id == st.test.left.id):
+            continue                                               # if p is None: p = <default>
+        if (isinstance(st, ast.If) and isinstance(st.test, ast.UnaryOp) and isinstance(st.test.op, ast.Not)
+                and isinstance(st.test.operand, ast.Call) and getattr(st.test.operand.func, 'id', '') == 'isinstance'
+                and not st.orelse and all(isinstance(b, ast.Raise) for b in st.body)):
+            continue                                               # if not isinstance(p, T): raise
+        tg = val = None
+        if isinstance(st, ast.Assign) and len(st.targets) == 1: tg, val = st.targets[0], st.value
+        if isinstance(st, ast.AnnAssign) and st.value is not None: tg, val = st.target, st.value
+        if tg is not None and is_self_attr(tg) and isinstance(val, ast.Name) and val.id in params:
+            out[val.id] = tg.attr; continue                        # self.g = p
+        if (isinstance(st, ast.If) and isinstance(st.test, ast.Call) and getattr(st.test.func, 'id', '') == 'isinstance'
+                and len(st.test.args) == 2 and isinstance(st.test.args[0], ast.Name) and getattr(st.test.args[1], 'id', '') == 'str'
+                and len(st.body) == 1 and len(st.orelse) == 1 and isinstance(st.orelse[0], ast.Assign)
+                and len(st.orelse[0].targets) == 1 and is_self_attr(st.orelse[0].targets[0])
+                and isinstance(st.orelse[0].value, ast.Name) and st.orelse[0].value.id == st.test.args[0].id
+                and isinstance(st.body[0], ast.Assign) and len(st.body[0].targets) == 1 and is_self_attr(st.body[0].targets[0])
+                and st.body[0].targets[0].attr == st.orelse[0].targets[0].attr):
+            out[st.test.args[0].id] = st.orelse[0].targets[0].attr; continue     # str -> h_to_b(str), bytes stored as given
+        raise Unsupported(f'{cname}.__init__: line {st.lineno}: not a plain field store')
+    # a field must not be stored twice
+    if len(set(out.values())) != len(out): raise Unsupported(f'{cname}.__init__: a field is stored twice')
+    return params, out
+
+
+def check_value_copy(cname):
+    """`cname.copy(x)` has, in every field of COPY_FIELDS[cname], the value of that field of x"""
+    if cname in _COPY_OK: return
+    _COPY_OK[cname] = True           # (no recursion through the class itself in this library)
+    m = _method(_cls(cname), 'copy')
+    if len(m.args.args) != 2: raise Unsupported(f'{cname}.copy: signature')
+    clsname, x = m.args.args[0].arg, m.args.args[1].arg
+    env = {}
+    def src(e):
+        if isinstance(e, ast.Name) and e.id in env: return env[e.id]
+        if isinstance(e, ast.Attribute) and isinstance(e.value, ast.Name) and e.value.id == x: return e.attr
+        if isinstance(e, ast.Call) and isinstance(e.func, ast.Name) and e.func.id == 'list' and len(e.args) == 1 and not e.keywords:
+            return src(e.args[0])
+        if (isinstance(e, ast.Call) and isinstance(e.func, ast.Attribute) and isinstance(e.func.value, ast.Name)
+                and e.func.value.id == 'copy' and e.func.attr == 'deepcopy' and len(e.args) == 1 and not e.keywords):
+            return src(e.args[0])
+        if (isinstance(e, ast.Call) and isinstance(e.func, ast.Attribute) and e.func.attr == 'copy' and isinstance(e.func.value, ast.Name)
+                and e.func.value.id in COPY_FIELDS and len(e.args) == 1 and not e.keywords):
+            check_value_copy(e.func.value.id); return src(e.args[0])
+        if (isinstance(e, ast.ListComp) and len(e.generators) == 1 and not e.generators[0].ifs and isinstance(e.generators[0].target, ast.Name)
+                and isinstance(e.elt, ast.Call) and isinstance(e.elt.func, ast.Attribute) and e.elt.func.attr == 'copy'
+                and isinstance(e.elt.func.value, ast.Name) and e.elt.func.value.id in COPY_FIELDS and len(e.elt.args) == 1
+                and isinstance(e.elt.args[0], ast.Name) and e.elt.args[0].id == e.generators[0].target.id and not e.elt.keywords):
+            check_value_copy(e.elt.func.value.id); return src(e.generators[0].iter)
+        return None
+    ret = None
+    for st in m.body:
+        if isinstance(st, ast.Expr) and isinstance(st.value, ast.Constant): continue
+        if isinstance(st, ast.Assign) and len(st.targets) == 1 and isinstance(st.targets[0], ast.Name):
+            env[st.targets[0].id] = src(st.value); continue
+        if isinstance(st, ast.Return) and st is m.body[-1]: ret = st.value; continue
+        raise Unsupported(f'{cname}.copy: line {st.lineno}: unsupported statement')
+    if not (isinstance(ret, ast.Call) and isinstance(ret.func, ast.Name) and ret.func.id == clsname):
+        raise Unsupported(f'{cname}.copy does not return cls(...)')
+    params, stored = ctor_map(cname)
+    got = {}
+    if len(ret.args) > len(params): raise Unsupported(f'{cname}.copy: too many constructor arguments')
+    for p_, a in list(zip(params, ret.args)) + [(k.arg, k.value) for k in ret.keywords]:
+        if p_ is None or p_ not in params: raise Unsupported(f'{cname}.copy: constructor argument {p_}')
+        if p_ in stored: got[stored[p_]] = src(a)
+    for f in COPY_FIELDS[cname]:
+        if got.get(f) != f: raise Unsupported(f'{cname}.copy does not hand field {f} of its argument to the constructor field {f}')
 
 
 class Tr:
@@ -292,6 +417,8 @@ class Tr:
         if (isinstance(n, ast.Subscript) and isinstance(n.value, ast.Attribute) and isinstance(n.value.value, ast.Name)
                 and n.value.value.id == 'self' and 'self_' + n.value.attr in s.reclists and not isinstance(n.slice, ast.Slice)):
             return s.eff(f'Py.listGet self_{n.value.attr} {s.e(n.slice)}')
+        if isinstance(n, ast.Subscript) and isinstance(n.value, ast.Name) and n.value.id in s.mutlists and not isinstance(n.slice, ast.Slice):
+            return s.eff(f'Py.listGet {n.value.id} {s.e(n.slice)}')
         if isinstance(n, ast.Subscript) and isinstance(n.value, ast.Name) and n.value.id == 'OP_CODES' and 'OPS' in s.optables:
             k = n.slice
             if isinstance(k, ast.Name) and k.id in s.tokvars: return s.eff(f'Py.tokLookup OPS {k.id}')
@@ -333,11 +460,30 @@ class Tr:
             return n.id
         s.fail(n, 'iterable')
 
+    def check_ctor(s, n, cls):
+        """positional arguments of a record constructor are in the order of the record's fields"""
+        for c in s.tree.body:
+            if isinstance(c, ast.ClassDef) and c.name == cls:
+                for m in c.body:
+                    if isinstance(m, ast.FunctionDef) and m.name == '__init__':
+                        names = [a.arg for a in m.args.args[1:]]
+                        want = REC_CTOR[cls][1]
+                        if names[:len(want)] != want: s.fail(n, f'{cls}.__init__ parameters {names} are not {want}')
+                        # and stores them under the same names
+                        stored = {t.attr for x in ast.walk(m) if isinstance(x, ast.Assign) for t in x.targets
+                                  if isinstance(t, ast.Attribute) and isinstance(t.value, ast.Name) and t.value.id == 'self'
+                                  and isinstance(x.value, ast.Name) and x.value.id == t.attr}
+                        if not set(want) <= stored: s.fail(n, f'{cls}.__init__ does not store {want} as given')
+                        return
+        s.fail(n, f'class {cls} not found')
+
     def recsub(s, n):
         """`self.<record list>[i]` -> the name of the record-list parameter"""
         if (isinstance(n, ast.Subscript) and isinstance(n.value, ast.Attribute) and isinstance(n.value.value, ast.Name)
                 and n.value.value.id == 'self' and 'self_' + n.value.attr in s.reclists and not isinstance(n.slice, ast.Slice)):
             return 'self_' + n.value.attr
+        if (isinstance(n, ast.Subscript) and isinstance(n.value, ast.Name) and n.value.id in s.mutlists and not isinstance(n.slice, ast.Slice)):
+            return n.value.id
         return None
 
     def ispoint(s, n):
@@ -423,6 +569,13 @@ class Tr:
                     return f'(Py.xorBytes {s.e(za)} {s.e(zb)})'
                 s.fail(n, 'bytes(generator)')
             if f.id in POINT_RET and 'p' in s.fconsts: return s.eff(f'{POINT_RET[f.id]} ' + ' '.join(s.e(a) for a in args))
+            if f.id == 'Script' and len(args) == 1 and not kw and isinstance(args[0], ast.List) and not args[0].elts:
+                return '([] : List Py.PyTok)'
+            if f.id in REC_CTOR and s.mutcopy is not None and not kw and len(args) == len(REC_CTOR[f.id][1]):
+                s.check_ctor(n, f.id)
+                return f'(⟨' + ', '.join(s.e(a) for a in args) + f'⟩ : {REC_CTOR[f.id][0]})'
+            if f.id == 'len' and isinstance(args[0], ast.Name) and args[0].id in s.mutlists:
+                return f'((List.length {args[0].id} : Nat) : Int)'
             if f.id == 'len':
                 a0 = args[0]
                 if isinstance(a0, ast.Attribute) and isinstance(a0.value, ast.Name) and (
@@ -466,6 +619,14 @@ class Tr:
                     import copy
                     parts.append(s.e(Sub().visit(copy.deepcopy(args[0].elt))))
                 return '(' + ' ++ '.join(parts) + ')'
+            if (f.attr == 'to_bytes' and s.mutcopy is not None and isinstance(f.value, ast.Name) and f.value.id == s.mutcopy[0]
+                    and len(args) == 1 and not kw):
+                tmp, rf = s.mutcopy
+                fld = lambda x: f'{tmp}__{x}' if x in rf else f'self_{x}'
+                for x in ('version', 'inputs', 'outputs', 'witnesses', 'locktime'):
+                    if fld(x) not in s.declared: s.fail(n, f'to_bytes of the copy needs field {x}')
+                return s.eff(f'transaction_to_bytes OPS {fld("version")} {fld("inputs")} {fld("outputs")} {fld("witnesses")} '
+                             f'{fld("locktime")} {s.cond(args[0])}')
             if f.attr == 'to_bytes' and not args and isinstance(f.value, ast.Attribute) and isinstance(f.value.value, ast.Name) \
                     and f.value.value.id == 'self' and 'self_' + f.value.attr in s.toklists:
                 return s.eff(f'script_to_bytes OPS self_{f.value.attr}')            # self.script_sig.to_bytes()
@@ -552,6 +713,52 @@ class Tr:
         if isinstance(st, ast.Raise): return [f'{ind}throw PyErr.{s.exc(st.exc)}']
         if isinstance(st, ast.Assert):
             c = s.cond(st.test); return s.flush(ind) + [f'{ind}if !{c} then throw PyErr.assertion']
+        if isinstance(st, ast.Assign) and len(st.targets) == 1 and s.mutlists:
+            tg = st.targets[0]
+            # L[i].field = e   on a list of the mutable copy
+            if (isinstance(tg, ast.Attribute) and isinstance(tg.value, ast.Subscript) and isinstance(tg.value.value, ast.Name)
+                    and tg.value.value.id in s.mutlists and not isinstance(tg.value.slice, ast.Slice)
+                    and tg.attr in s.reclists[tg.value.value.id][2]):
+                L = tg.value.value.id
+                v = s.e(st.value)                # Python evaluates the right-hand side first
+                i = s.e(tg.value.slice)
+                r = s.eff(f'Py.listGet {L} {i}')
+                return s.flush(ind) + [f'{ind}{L} := Py.listSet {L} {i} {{ {r} with {tg.attr} := {v} }}']
+            # L = [] / L = [L[i]]
+            if isinstance(tg, ast.Name) and tg.id in s.mutlists and isinstance(st.value, ast.List):
+                elts = []
+                for x in st.value.elts:
+                    if s.recsub(x) is not None and s.reclists[s.recsub(x)] == s.reclists[tg.id]: elts.append(s.e(x))
+                    elif isinstance(x, ast.Name) and x.id in s.recvars and s.recvars[x.id] == s.reclists[tg.id]: elts.append(x.id)
+                    else: s.fail(st, 'element of a record list')
+                return s.flush(ind) + [f'{ind}{tg.id} := ([' + ', '.join(elts) + f'] : {s.mutlists[tg.id]})']
+            if isinstance(tg, ast.Name) and tg.id in s.mutlists: s.fail(st, 'assignment to a list of the copy')
+        if (isinstance(st, ast.Expr) and isinstance(st.value, ast.Call) and isinstance(st.value.func, ast.Attribute)
+                and st.value.func.attr == 'append' and isinstance(st.value.func.value, ast.Name)
+                and st.value.func.value.id in s.mutlists and len(st.value.args) == 1):
+            L = st.value.func.value.id; a = st.value.args[0]
+            if isinstance(a, ast.Name) and a.id in s.recvars and s.recvars[a.id] == s.reclists[L]: v = a.id
+            elif (isinstance(a, ast.Call) and isinstance(a.func, ast.Name) and a.func.id in REC_CTOR
+                  and 'List ' + REC_CTOR[a.func.id][0] == s.mutlists[L]): v = s.e(a)
+            else: s.fail(st, 'append to a record list')
+            return s.flush(ind) + [f'{ind}{L} := {L} ++ [{v}]']
+        if (isinstance(st, ast.For) and not st.orelse and isinstance(st.target, ast.Name) and isinstance(st.iter, ast.Name)
+                and st.iter.id in s.mutlists):
+            # for v in L: v.f = e  — every record of the list is updated in place; on values: a map
+            L = st.iter.id; v = st.target.id; flds = s.reclists[L][2]
+            s.recvars[v] = s.reclists[L]
+            steps = []
+            for b in st.body:
+                if not (isinstance(b, ast.Assign) and len(b.targets) == 1 and isinstance(b.targets[0], ast.Attribute)
+                        and isinstance(b.targets[0].value, ast.Name) and b.targets[0].value.id == v and b.targets[0].attr in flds):
+                    s.fail(b, 'loop over a list of the copy: only field assignments to the loop variable')
+                saved = s.pre; s.pre = []
+                val = s.e(b.value)
+                if s.pre: s.fail(b, 'effectful right-hand side in an element update')
+                s.pre = saved
+                steps.append(f'let {v} := {{ {v} with {b.targets[0].attr} := {val} }}; ')
+            del s.recvars[v]
+            return s.flush(ind) + [f'{ind}{L} := {L}.map (fun {v} => ' + ''.join(steps) + f'{v})']
         if isinstance(st, ast.Assign) and len(st.targets) == 1:
             tg = st.targets[0]
             if isinstance(tg, ast.Attribute):
@@ -694,7 +901,7 @@ class Tr:
         s.points = {p for p, t in params if t == 'Point'}
         s.toklists = {p for p, t in params if t == 'List Py.PyTok'}; s.tokvars = set()
         s.byteslists = {p for p, t in params if t == 'List Bytes'}
-        s.reclists = {p: RECORDS[t] for p, t in params if t in RECORDS}; s.recvars = {}
+        s.reclists = {p: RECORDS[t] for p, t in params if t in RECORDS}; s.recvars = {}; s.mutlists = {}; s.mutcopy = None
         s.optables = {p for p, t in params if t == 'List (String × Bytes)'}
         s.revtables = {p for p, t in params if t == 'List (Bytes × String)'}
         params = [(p, POINT if t == 'Point' else t) for p, t in params]
@@ -710,6 +917,43 @@ class Tr:
                     and isinstance(st.value.func.value, ast.Name) and st.value.func.value.id == 'Transaction'
                     and len(st.value.args) == 1 and isinstance(st.value.args[0], ast.Name) and st.value.args[0].id == 'self')
         copies = [st.targets[0].id for st in node.body if is_selfcopy(st)]
+        if copies: check_value_copy('Transaction')
+        mutpre = []
+        if copies and s.name in MUTCOPY:
+            if len(copies) != 1 or not is_selfcopy(node.body[0] if not (isinstance(node.body[0], ast.Expr) and isinstance(node.body[0].value, ast.Constant)) else node.body[1]):
+                s.fail(node, 'the mutable copy must be made first')
+            tmp = copies[0]
+            reclist_fields = {p[5:]: t for p, t in params if p.startswith('self_') and t in RECORDS}
+            for x in ast.walk(node):
+                if isinstance(x, ast.Name) and x.id == tmp and isinstance(x.ctx, ast.Store) and not any(
+                        is_selfcopy(st) and st.targets[0] is x for st in node.body):
+                    s.fail(x, 'copy of self re-bound')
+                # the other fields of the copy stay read-only
+                if isinstance(x, ast.Attribute) and isinstance(x.value, ast.Name) and x.value.id == tmp \
+                        and isinstance(x.ctx, (ast.Store, ast.Del)) and x.attr not in reclist_fields:
+                    s.fail(x, 'write to a non-list field of the copy')
+                # the copy itself must not escape (returned, stored, passed on) — only its to_bytes() may be called
+                if isinstance(x, ast.Name) and x.id == tmp and isinstance(x.ctx, ast.Load):
+                    pass
+            uses = [x for x in ast.walk(node) if isinstance(x, ast.Name) and x.id == tmp and isinstance(x.ctx, ast.Load)]
+            attr_parents = [x.value for x in ast.walk(node) if isinstance(x, ast.Attribute) and isinstance(x.value, ast.Name) and x.value.id == tmp]
+            if any(not any(u is a for a in attr_parents) for u in uses): s.fail(node, 'the copy escapes')
+            node.body = [st for st in node.body if not is_selfcopy(st)]
+            class RM(ast.NodeTransformer):
+                def visit_Attribute(self, n):
+                    self.generic_visit(n)
+                    if isinstance(n.value, ast.Name) and n.value.id == tmp:
+                        if n.attr in reclist_fields: return ast.copy_location(ast.Name(id=f'{tmp}__{n.attr}', ctx=n.ctx), n)
+                        if n.attr == 'to_bytes': return n
+                        return ast.copy_location(ast.Attribute(value=ast.Name(id='self', ctx=ast.Load()), attr=n.attr, ctx=n.ctx), n)
+                    return n
+            node = RM().visit(node)
+            for f_, t_ in reclist_fields.items():
+                nm = f'{tmp}__{f_}'
+                mutpre.append(f'  let mut {nm} := self_{f_}')
+                s.reclists[nm] = RECORDS[t_]; s.declared.add(nm); s.mutlists[nm] = t_
+            s.mutcopy = (tmp, reclist_fields)
+            copies = []
         if copies:
             for x in ast.walk(node):
                 if isinstance(x, ast.Name) and x.id in copies and isinstance(x.ctx, ast.Store) and not any(
@@ -748,7 +992,7 @@ class Tr:
                 for x in ([tg] if isinstance(tg, ast.Name) else getattr(tg, 'elts', [])):
                     if isinstance(x, ast.Name) and x.id in {p for p, _ in params} and x.id not in rebound:
                         rebound.append(x.id)
-        pre = [f'  let mut {r} := {r}' for r in rebound] + pre
+        pre = [f'  let mut {r} := {r}' for r in rebound] + mutpre + pre
         body = pre + s.block(node.body, '  ')
         last = node.body[-1]
         if not isinstance(last, (ast.Return, ast.Raise)):
@@ -832,15 +1076,25 @@ def gen_codec():
     trees = {}
     L = ['/- GENERATED by gen/py2lean.py from /repo on every run — do not edit. -/', 'import BU.Py', 'import BU.PyList', 'open Py', 'set_option linter.unusedVariables false', '',
          'namespace Gen', '']
-    fps = {}
+    fps = {}; unsup = {}
     for name, (file, qual, params, ret) in SIG.items():
-        if file not in trees: trees[file] = ast.parse(open(f'{REPO}/bitcoinutils/{file}').read())
-        node = find(trees[file], qual)
-        fps[name] = fingerprint(node)
         L.append(f'-- {file}: {qual}')
-        L.append(Tr(name, file).fn(node, params, ret))
+        try:
+            if file not in trees: trees[file] = ast.parse(open(f'{REPO}/bitcoinutils/{file}').read())
+            node = find(trees[file], qual)
+            fps[name] = fingerprint(node)
+            tr = Tr(name, file); tr.tree = trees[file]
+            L.append(tr.fn(node, params, ret))
+        except Unsupported as ex:
+            # Outside the translated subset: a stub of the same type that raises `unsupported`.  Everything else still elaborates; the
+            # theorems about this function (and about its callers) stop checking, and only the properties that rest on them are affected.
+            unsup[name] = str(ex)
+            ps = ' '.join(f'({p_} : {POINT if t_ == "Point" else t_})' for p_, t_ in params)
+            r_ = POINT if ret == 'Point' else ret
+            L.append(f'/- NOT TRANSLATED: {str(ex)[:300].replace("-/", "- /")} -/')
+            L.append(f'def {name} {ps} : Except PyErr ({r_}) := throw PyErr.unsupported\n')
     L += ['end Gen', '']
-    return '\n'.join(L), fps
+    return '\n'.join(L), fps, unsup
 
 
 def write_if_changed(path, text):
@@ -866,7 +1120,8 @@ def main():
         CONSTS['LEAF_VERSION_TAPSCRIPT'] = f'({consts.LEAF_VERSION_TAPSCRIPT} : Int)'
         for k in ('SIGHASH_ALL', 'SIGHASH_NONE', 'SIGHASH_SINGLE', 'SIGHASH_ANYONECANPAY', 'TAPROOT_SIGHASH_ALL'):
             CONSTS[k] = f'({getattr(consts, k)} : Int)'
-        for k in ('ABSOLUTE_TIMELOCK_SEQUENCE', 'REPLACE_BY_FEE_SEQUENCE'):
+        CONSTS['NEGATIVE_SATOSHI'] = f'({consts.NEGATIVE_SATOSHI} : Int)'
+        for k in ('ABSOLUTE_TIMELOCK_SEQUENCE', 'REPLACE_BY_FEE_SEQUENCE', 'EMPTY_TX_SEQUENCE'):
             CONSTS[k] = blit(getattr(consts, k))
         b32 = mods['bech32']
         CONSTS['BECH32M_CONST'] = f'({b32.BECH32M_CONST} : Int)'
@@ -880,7 +1135,7 @@ def main():
                                      'G': f'(some (({sch.G[0]} : Int), ({sch.G[1]} : Int)) : {POINT})'}
         if sch.DEBUG: raise Unsupported('schnorr.DEBUG is set: debug output is outside the translated subset')
         tables = gen_tables(mods)
-        codec, fps = gen_codec()
+        codec, fps, unsup = gen_codec()
     except Unsupported as ex:
         print(f'py2lean: UNSUPPORTED: {ex}', file=sys.stderr); sys.exit(3)
     except Exception as ex:  # import errors, syntax errors, missing names …
@@ -888,7 +1143,7 @@ def main():
     os.makedirs(OUT, exist_ok=True)
     ch1 = write_if_changed(os.path.join(OUT, 'Tables.lean'), tables)
     ch2 = write_if_changed(os.path.join(OUT, 'Codec.lean'), codec)
-    print(json.dumps({'tables_changed': ch1, 'codec_changed': ch2, 'functions': len(SIG), 'fingerprints': fps}))
+    print(json.dumps({'tables_changed': ch1, 'codec_changed': ch2, 'functions': len(SIG), 'unsupported': unsup, 'fingerprints': fps}))
 
 
 main()
